@@ -342,6 +342,7 @@ func TestVerifPickle(t *testing.T) {
 	defer f.Close()
 	w := bufio.NewWriterSize(f, 1<<20)
 	defer w.Flush()
+	verifPlaceholderCases(w)
 
 	sc := bufio.NewScanner(in)
 	sc.Buffer(make([]byte, 1<<20), 1<<28)
@@ -391,6 +392,62 @@ func TestVerifPickle(t *testing.T) {
 	}
 	if err := sc.Err(); err != nil {
 		t.Fatal(err)
+	}
+}
+
+// ---- a host pickler that, like dawn's recursionPickler, answers a second request for an object that is still being
+// pickled with a placeholder: the object is then memoized twice (placeholder, final), and the ids of everything memoized
+// afterwards must still agree with the decoder's memo
+
+type recPickler struct{ seen map[*verifObj]bool }
+
+func (p *recPickler) Pickle(x starlark.Value) (string, string, starlark.Tuple, error) {
+	if o, ok := x.(*verifObj); ok {
+		if p.seen[o] {
+			return "verif", "Placeholder", starlark.Tuple{starlark.String(o.name)}, nil
+		}
+		p.seen[o] = true
+		return o.module, o.name, o.args, nil
+	}
+	return "", "", nil, ErrCannotPickle
+}
+
+func verifPlaceholderCases(w *bufio.Writer) {
+	for n := 0; n < 4; n++ {
+		// n host objects, each reachable from its own arguments through a list
+		var hosts starlark.Tuple
+		for i := 0; i < n; i++ {
+			x := starlark.NewList(nil)
+			h := &verifObj{"verif", "H" + strconv.Itoa(i), starlark.Tuple{x}}
+			x.Append(h)
+			hosts = append(hosts, h)
+		}
+		shared := starlark.NewList([]starlark.Value{starlark.MakeInt(1), starlark.MakeInt(2)})
+		d := starlark.NewDict(1)
+		d.SetKey(starlark.String("k"), shared)
+		top := starlark.Tuple{hosts, shared, d, shared}
+		var buf bytes.Buffer
+		if err := NewEncoder(&buf, &recPickler{map[*verifObj]bool{}}).Encode(top); err != nil {
+			fmt.Fprintf(w, "ORACLE\tencode-failed\tplaceholder-%d\t%v\n", n, err)
+			continue
+		}
+		v, err := NewDecoder(&buf, UnpicklerFunc(verifUnpickle)).Decode()
+		ok := false
+		if t, isT := v.(starlark.Tuple); err == nil && isT && len(t) == 4 {
+			l1, a := t[1].(*starlark.List)
+			l2, b := t[3].(*starlark.List)
+			dd, c := t[2].(*starlark.Dict)
+			if a && b && c && l1 == l2 && l1.Len() == 2 {
+				if x, found, _ := dd.Get(starlark.String("k")); found && x == starlark.Value(l1) {
+					if i0, _ := starlark.AsInt32(l1.Index(0)); i0 == 1 {
+						ok = true
+					}
+				}
+			}
+		}
+		if !ok {
+			fmt.Fprintf(w, "ORACLE\troundtrip\tplaceholder-%d\ta container shared after %d doubly-memoized host objects does not decode to one shared list [1, 2] (err=%v)\n", n, n, err)
+		}
 	}
 }
 
